@@ -424,16 +424,7 @@ Proof.
   - intros s t [E|[]]. inversion E; subst. repeat split. apply upd_same.
 Qed.
 
-(* the sections of [a] are what the origin serves for the names they get:
-   content is determined by the key (collision-free hashes, a deterministic
-   signature over the control section, gunzip of the data section) *)
-Definition served (dir : string) (a : apk) : Prop :=
-  a_ctl a = origin (PMember dir MCtl (a_ctlh a)) /\
-  (forall s, a_sig a = Some s -> s = origin (PMember dir MSig (a_ctlh a))) /\
-  a_dat a = origin (PMember dir MDat (a_dath a)) /\
-  a_tar a = origin (PMember dir MTar (a_dath a)).
-
-Lemma populate_package_ok : forall o d0 dir a, served dir a ->
+Lemma populate_package_ok : forall o d0 dir a, served origin dir a ->
   pok o d0 (populate_package o dir a).
 Proof.
   intros o d0 dir a (Hc & Hs & Hd & Ht). unfold populate_package.
@@ -476,3 +467,174 @@ Proof.
     + intros s E. discriminate.
 Qed.
 End Protocols.
+
+(* ---- the property-level statements ----------------------------------------- *)
+Lemma nth_progs_from : forall origin bs k j prog,
+  nth_error (progs_from origin k bs) j = Some prog ->
+  exists b, nth_error bs j = Some b /\ prog = prog_of origin (k + j) b.
+Proof.
+  induction bs as [|b bs IH]; intros k j prog H; destruct j; simpl in *; try discriminate.
+  - inversion H; subst. exists b. rewrite Nat.add_0_r. auto.
+  - destruct (IH (S k) j prog H) as (b' & Hb & ->). exists b'. split; auto.
+    f_equal. lia.
+Qed.
+
+Theorem population_sound : forall origin gunzip bs sched,
+  builders_ok origin bs -> (forall b, In b bs -> is_reader b = false) ->
+  CacheSound origin (dsk (run gunzip (init (progs origin bs)) sched)).
+Proof.
+  intros origin gunzip bs sched Hok Hnr.
+  apply DiskOK_sound.
+  destruct (run_preserves_Inv gunzip origin sched (init (progs origin bs))) as (HD & _); auto.
+  apply init_Inv. intros j prog Hj.
+  destruct (nth_progs_from _ _ _ _ _ Hj) as (b & Hb & ->).
+  change (0 + j) with j.
+  pose proof (nth_error_In _ _ Hb) as Hin.
+  destruct b as [dir e|dir a|dir dh]; unfold prog_of.
+  - apply (populate_index_ok gunzip origin).
+  - apply (populate_package_ok gunzip origin). apply Hok. exact Hin.
+  - specialize (Hnr _ Hin). discriminate.
+Qed.
+
+Lemma resolve_exists : forall d n r, resolve d n = Some r -> d n <> None.
+Proof. unfold resolve. intros d n r H E. rewrite E in H. discriminate. Qed.
+
+Lemma sound_resolve : forall origin d n c b, CacheSound origin d -> is_adv n = true ->
+  resolve d n = Some (c, b) -> c = origin n /\ b = true.
+Proof.
+  intros origin d n c b Hs Hn Hr. pose proof (Hs n Hn (resolve_exists _ _ _ Hr)) as H.
+  rewrite H in Hr. inversion Hr. auto.
+Qed.
+
+Theorem read_package_sound : forall origin dh d dir ctlh m,
+  CacheSound origin d -> read_package dh d dir ctlh = Hit m ->
+  m_ctl m = origin (PMember dir MCtl ctlh) /\
+  m_dat m = origin (PMember dir MDat (dh (m_ctl m))) /\
+  m_tar m = origin (PMember dir MTar (dh (m_ctl m))) /\
+  (forall s, m_sig m = Some s -> s = origin (PMember dir MSig ctlh)).
+Proof.
+  intros origin dh d dir ctlh m Hs. unfold read_package.
+  destruct (resolve d (PMember dir MCtl ctlh)) as [[ctl b1]|] eqn:E1; [|discriminate].
+  destruct (resolve d (PMember dir MDat (dh ctl))) as [[dat b2]|] eqn:E2; [|discriminate].
+  destruct (resolve d (PMember dir MTar (dh ctl))) as [[tar b3]|] eqn:E3; [|discriminate].
+  intros H. inversion H; subst m; clear H. simpl.
+  destruct (sound_resolve _ _ (PMember dir MCtl ctlh) _ _ Hs eq_refl E1) as [A1 _].
+  destruct (sound_resolve _ _ (PMember dir MDat (dh ctl)) _ _ Hs eq_refl E2) as [A2 _].
+  destruct (sound_resolve _ _ (PMember dir MTar (dh ctl)) _ _ Hs eq_refl E3) as [A3 _].
+  repeat split; auto.
+  intros s. destruct (resolve d (PMember dir MSig ctlh)) as [[sg b4]|] eqn:E4; [|discriminate].
+  intros E. inversion E; subst s.
+  destruct (sound_resolve _ _ (PMember dir MSig ctlh) _ _ Hs eq_refl E4) as [A4 _]. exact A4.
+Qed.
+
+(* a build with the cache installs what a build without it installs *)
+Theorem with_cache_eq_without : forall origin dh d dir ctlh, CacheSound origin d ->
+  installed_eq (package_with_cache origin dh d dir ctlh) (fetch_origin origin dh dir ctlh).
+Proof.
+  intros origin dh d dir ctlh Hs. unfold package_with_cache.
+  destruct (read_package dh d dir ctlh) as [| |m] eqn:E; try (repeat split; reflexivity).
+  destruct (read_package_sound _ _ _ _ _ _ Hs E) as (A & B & C & _).
+  unfold installed_eq, fetch_origin. simpl. rewrite A in B, C. rewrite A, B, C. auto.
+Qed.
+
+Theorem read_index_sound : forall origin d dir etag c b, CacheSound origin d ->
+  read_index d dir etag = Some (c, b) -> c = origin (PIndex dir etag) /\ b = true.
+Proof. intros. eapply sound_resolve; eauto. Qed.
+
+Theorem read_offline_sound : forall origin d e c b, CacheSound origin d -> is_adv e = true ->
+  read_offline d e = Some (c, b) -> c = origin e /\ b = true.
+Proof. intros. eapply sound_resolve; eauto. Qed.
+
+(* ---- the listing validator decides ListingSound --------------------------- *)
+Lemma content_eqb_spec : forall a b, content_eqb a b = true <-> a = b.
+Proof. apply list_eqb_spec. intros. apply String.eqb_eq. Qed.
+
+Lemma check_entry_nil : forall tab l n o, check_entry tab l (n, o) = [] <->
+  (is_adv n = true -> exists c b, lookup_l tab n = Some c /\ resolve (disk_of l) n = Some (c, b)).
+Proof.
+  intros tab l n o. unfold check_entry. destruct (is_adv n).
+  - destruct (lookup_l tab n) as [c|].
+    + destruct (resolve (disk_of l) n) as [[c' b]|].
+      * unfold tag_if. destruct (content_eqb c c') eqn:E; simpl.
+        -- apply content_eqb_spec in E. subst. split; eauto.
+        -- split; [discriminate|]. intros H. destruct (H eq_refl) as (c0 & b0 & A & B).
+           assert (Hcc : c = c') by congruence. subst c'.
+           rewrite (proj2 (content_eqb_spec c c) eq_refl) in E. discriminate.
+      * split; [discriminate|]. intros H. destruct (H eq_refl) as (c0 & b0 & _ & B). discriminate.
+    + split; [discriminate|]. intros H. destruct (H eq_refl) as (c0 & b0 & A & _). discriminate.
+  - split; auto. intros _ H. discriminate.
+Qed.
+
+Lemma validate_sub_iff : forall tab l l0, List.flat_map (check_entry tab l) l0 = [] <->
+  (forall n o, In (n, o) l0 -> is_adv n = true ->
+     exists c b, lookup_l tab n = Some c /\ resolve (disk_of l) n = Some (c, b)).
+Proof.
+  intros tab l l0. induction l0 as [|[n o] l0 IH]; cbn [List.flat_map In].
+  - split; auto. intros _ n o [].
+  - split.
+    + intros H. apply app_eq_nil in H. destruct H as [H1 H2].
+      intros n' o' [E|Hin] Hadv.
+      * inversion E; subst. apply (proj1 (check_entry_nil tab l n' o') H1 Hadv).
+      * apply (proj1 IH H2 n' o' Hin Hadv).
+    + intros H.
+      assert (A : check_entry tab l (n, o) = []).
+      { apply check_entry_nil. intros Hadv. apply (H n o (or_introl eq_refl) Hadv). }
+      rewrite A. cbn [app]. apply IH. intros n' o' Hin. apply (H n' o'). right. exact Hin.
+Qed.
+
+Theorem validate_listing_iff : forall tab l, validate_listing tab l = [] <-> ListingSound tab l.
+Proof. intros. apply validate_sub_iff. Qed.
+
+(* ---- refutation witnesses --------------------------------------------------- *)
+Definition w_origin : path -> content := fun n =>
+  match n with
+  | PMember _ MCtl _ => ["ctl"] | PMember _ MSig _ => ["sig"]
+  | PMember _ MDat _ => ["gz"] | PMember _ MTar _ => ["t1"; "t2"]
+  | _ => ["i1"; "i2"]
+  end.
+Definition w_apk : apk :=
+  {| a_sig := None; a_ctl := ["ctl"]; a_dat := ["gz"]; a_tar := ["t1"; "t2"]; a_ctlh := "c"; a_dath := "d" |}.
+Definition w_gunzip (z : content) : content := ["t1"; "t2"].
+Definition w_dh (c : content) : string := "d".
+
+(* builder 0 populates and is killed between advertising <d>.dat.tar.gz and
+   <d>.dat.tar (16 steps); builder 1 is a later build whose cachedPackage finds
+   control and data, starts PackageData's in-place rebuild and is killed after
+   the first write (3 steps); builder 2 is a later complete download, run to
+   the end: AdvertiseCachedFile finds <d>.dat.tar present and removes its own
+   complete copy *)
+Definition w_bs : list builder := [BPackage "p" w_apk; BReader "p" "d"; BPackage "p" w_apk].
+Definition w_sched : list nat := repeat 0 16 ++ [1; 1; 1] ++ repeat 2 40.
+Definition w_disk : disk := dsk (run w_gunzip (init (progs w_origin w_bs)) w_sched).
+
+Lemma w_bs_ok : builders_ok w_origin w_bs.
+Proof.
+  intros dir a [E|[E|[E|[]]]]; inversion E; subst; repeat split; try reflexivity;
+    intros s E'; discriminate.
+Qed.
+
+Lemma rebuild_breaks_cache :
+  ~ CacheSound w_origin w_disk /\
+  exists m, read_package w_dh w_disk "p" "c" = Hit m /\
+            m_tar m = ["t1"] /\ m_tar m <> w_origin (PMember "p" MTar (w_dh (m_ctl m))) /\
+            w_disk (PMember "p" MTar "d") = Some (File ["t1"] false).
+Proof.
+  split.
+  - intro H. specialize (H (PMember "p" MTar "d") eq_refl).
+    assert (X : w_disk (PMember "p" MTar "d") <> None) by (vm_compute; discriminate).
+    specialize (H X). vm_compute in H. discriminate H.
+  - eexists. split; [vm_compute; reflexivity|]. simpl.
+    split; [reflexivity|]. split; [discriminate|]. vm_compute. reflexivity.
+Qed.
+
+(* an index download killed after its first write: the temporary file is what
+   fetchOffline may pick (newest mtime in the directory) *)
+Definition w2_bs : list builder := [BIndex "i" "E"].
+Definition w2_disk : disk := dsk (run w_gunzip (init (progs w_origin w2_bs)) [0; 0; 0]).
+Lemma offline_returns_partial :
+  read_offline w2_disk (PTmpFile "i" 0) = Some (["i1"], false) /\
+  forall n, w_origin n <> ["i1"].
+Proof.
+  split; [vm_compute; reflexivity|].
+  intros n. destruct n as [| | | |d e|d m h]; simpl; try discriminate. destruct m; discriminate.
+Qed.
